@@ -94,12 +94,25 @@ Fixpoint path_ok (cur : st) (l : list st) : bool :=
       end
   end.
 
+(* every document of the case (attached to a message, drawn by an agent, resolved from a store) with what the real
+   service.CreateDestination made of it: endpoint and recipient keys, or an error.  The model's `dest` (from which
+   d_keys / d_ep in `step` are computed) must say the same. *)
+Definition odest_eqb (a b : option (ep * list key)) : bool :=
+  match a, b with
+  | None, None => true
+  | Some (e, ks), Some (e', ks') => N.eqb e e' && keys_eqb ks ks'
+  | _, _ => false
+  end.
+Definition dests_ok (l : list (doc * option (ep * list key))) : bool :=
+  forallb (fun p => odest_eqb (dest (fst p)) (snd p)) l.
+
 Record acase := ACase { k_inputs : list input; k_obs : list obs }.
-Record case := Case { c_agents : list acase; c_paths : list (list st) }.
+Record case := Case { c_agents : list acase; c_paths : list (list st); c_dests : list (doc * option (ep * list key)) }.
 
 Definition check_case (c : case) : bool :=
   forallb (fun k => check_from agent0 (k_inputs k) (k_obs k)) (c_agents c) &&
-  forallb (path_ok SNull) (c_paths c).
+  forallb (path_ok SNull) (c_paths c) &&
+  dests_ok (c_dests c).
 
 Fixpoint mismatches_from (i : nat) (cs : list case) : list nat :=
   match cs with
